@@ -1,6 +1,9 @@
 import MidnightZK.Model.C09.Planner
 import MidnightZK.Proofs.C09.Planner
 import MidnightZK.Model.C09.Tables
+import MidnightZK.Model.C09.Emitter
+import MidnightZK.Proofs.C09.Emitter
+import MidnightZK.Gen.C09ValueChannels
 /-!
 # C09 — circuit structure never depends on witness or instance values
 
@@ -315,5 +318,159 @@ theorem stdlib_tables_spec (arch used : Chips) (n : String) :
       ∨ (n = "keccak_sha3" ∧ arch.keccakSha3 ∧ used.keccakSha3) ∨ (n = "blake2b" ∧ arch.blake2b ∧ used.blake2b) := by
   simp only [stdlibTables, List.mem_append, List.mem_singleton, mem_ite_singleton, Bool.and_eq_true]
   grind
+
+/-! ## Synthesisers whose only witness-dependent part are the advice VALUES
+
+`proofs/src/circuit/value.rs` lets gadget code turn a `Value` only into other `Value`s, which can
+only end up in the value closure of `assign_advice`; every other way out (a closure with a side
+effect, `error_if_known_and`, `map_with_result`, …) is listed on every run by
+`translators/c09_value_channels.py` and must be in the reviewed allow-list
+(`value_channels_all_reviewed` below). The theorems of this section say what that buys. -/
+
+/-- **An emitter without witness argument has a witness-independent circuit**: for an emitter
+given as a witness-free skeleton plus separately supplied advice values (the shape of the emitters
+of the models of C04–C08: `C04.runOps fi ofNat r prog`, `C07.ShaChip.emit ks iv n`,
+`C07.Sha512Chip.emit`, the gate/row emitters of C05/C06 and the exposure emitters of C08 take
+parameters only, values are computed by separate evaluators such as `C04.evalOps`), the keygen view
+(fixed cells, selectors, fills, copies), the advice cells written, the region starts, the rows
+needed and the cost model under EVERY witness `w` are those of the keygen run. -/
+theorem emitter_keygen_view_witness_independent {W : Type} (cfg : Cfg) (e : Emitter W) (w : W) :
+    keygenView (calls cfg (e.run w)) = keygenView (calls cfg e.keygenRun) ∧
+    advicePositions (calls cfg (e.run w)) = advicePositions (calls cfg e.keygenRun) ∧
+    starts cfg (e.run w) = starts cfg e.keygenRun ∧
+    rowsNeeded (calls cfg (e.run w)) = rowsNeeded (calls cfg e.keygenRun) ∧
+    costOf (calls cfg (e.run w)) = costOf (calls cfg e.keygenRun) := by
+  have h : (e.run w).map Item.erase = e.keygenRun.map Item.erase := by
+    simp only [Emitter.run, Emitter.keygenRun, withValuesItems_erase]
+  have hk := keygen_without_witness_eq_with_witness cfg e.skeleton (e.values w)
+  have hr := row_usage_ignores_advice_values cfg _ _ h
+  exact ⟨hk.1, hk.2, starts_ignore_values cfg _ _ h, hr.1, hr.2⟩
+
+/-- **"Structure + values" is exactly "the erased call log is the same for all witnesses"**: a
+synthesiser (any function from witnesses to `Layouter` call lists) can be written as a
+witness-free skeleton with separately supplied advice values IF AND ONLY IF its call log with the
+advice values erased does not depend on the witness. The right-hand side is what the harness
+checks on the real code for the unknown witness and every witness class (`run.rs: first_diff` on
+erased events), so a passing comparison is the hypothesis of
+`emitter_keygen_view_witness_independent` for the witnesses compared. -/
+theorem value_only_iff_erased_log_constant {W : Type} (g : Synth W) :
+    ValueOnly g ↔ ∀ w w', (g w).map Item.erase = (g w').map Item.erase := by
+  constructor
+  · rintro ⟨e, he⟩ w w'
+    rw [he w, he w']
+    simp only [Emitter.run, withValuesItems_erase]
+  · intro h
+    by_cases hne : Nonempty W
+    · obtain ⟨w0⟩ := hne
+      refine ⟨⟨(g w0).map Item.erase, fun w => valuesOfItems (g w)⟩, fun w => ?_⟩
+      simp only [Emitter.run]
+      rw [h w0 w, withValuesItems_self]
+    · exact ⟨⟨[], fun _ _ _ => none⟩, fun w => absurd ⟨w⟩ hne⟩
+
+/-- **A value-only synthesiser has one verifying key**: keygen views, advice cells, starts and
+cost model coincide for any two witnesses. -/
+theorem value_only_keygen_view_constant {W : Type} (cfg : Cfg) (g : Synth W) (hg : ValueOnly g) (w w' : W) :
+    keygenView (calls cfg (g w)) = keygenView (calls cfg (g w')) ∧
+    advicePositions (calls cfg (g w)) = advicePositions (calls cfg (g w')) ∧
+    costOf (calls cfg (g w)) = costOf (calls cfg (g w')) := by
+  have h := (value_only_iff_erased_log_constant g).mp hg w w'
+  exact ⟨keygenView_ignores_advice_values cfg _ _ h, advice_positions_ignore_values cfg _ _ h,
+    (row_usage_ignores_advice_values cfg _ _ h).2⟩
+
+/-- The seeded defect C09-1 in the model: a synthesiser that copies from the table entry picked by
+the witness (entry `w % 2`). -/
+def leakySelect : Synth Nat := fun w =>
+  [.region [.adv 0 0 (some 11)], .region [.adv 0 0 (some 22)],
+   .region [.adv 1 0 (some w), .equal ⟨2, 0, ⟨0, 1⟩⟩ ⟨w % 2, 0, ⟨0, 0⟩⟩]]
+
+/-- Non-vacuity of the hypothesis `ValueOnly`: it FAILS for a synthesiser with a value → structure
+channel, and its keygen views (here: the copy constraint) differ between two witnesses. -/
+theorem leaky_select_not_value_only :
+    ¬ ValueOnly leakySelect ∧
+    keygenView (calls ⟨[]⟩ (leakySelect 0)) ≠ keygenView (calls ⟨[]⟩ (leakySelect 1)) := by
+  refine ⟨fun h => ?_, by decide⟩
+  have := (value_only_iff_erased_log_constant leakySelect).mp h 0 1
+  revert this
+  decide
+
+/-- … while the same gadget copying from a fixed entry and using the witness as a value only is
+value-only (with an explicit emitter). -/
+example : ValueOnly (fun (w : Nat) =>
+    [Item.region [.adv 0 0 (some 11)], .region [.adv 1 0 (some w), .equal ⟨1, 0, ⟨0, 1⟩⟩ ⟨0, 0, ⟨0, 0⟩⟩]]) :=
+  ⟨⟨[.region [.adv 0 0 none], .region [.adv 1 0 none, .equal ⟨1, 0, ⟨0, 1⟩⟩ ⟨0, 0, ⟨0, 0⟩⟩]],
+    fun w i j => if i = 0 ∧ j = 0 then some 11 else if i = 1 ∧ j = 0 then some w else none⟩,
+   fun w => by simp [Emitter.run, withValuesItems, Item.withValues, withValuesEvs, Ev.withValue]⟩
+
+/-! ## Copy constraints as a set -/
+
+/-- **What the permutation argument enforces depends only on the SET of canonical copy pairs**:
+an assignment satisfies all `copy` calls of a call sequence iff it equates the two cells of every
+pair of `copyPairs` (order, orientation and repetition of the calls are irrelevant). This is why
+the harness compares the copy constraints of the keygen run and of every witness run as a
+canonical set of (cell, cell) pairs. -/
+theorem copies_hold_iff_pairs (asg : ACell → Nat) (cs : List Abs) :
+    CopiesHold asg cs ↔ ∀ p ∈ copyPairs cs, asg p.1 = asg p.2 := by
+  constructor
+  · intro h p hp
+    obtain ⟨a, ha, hap⟩ := List.mem_filterMap.mp hp
+    have := h a ha
+    cases a with
+    | copy c1 r1 c2 r2 =>
+      obtain ⟨q, hq, hiff⟩ := copyPair_copy asg c1 r1 c2 r2
+      rw [hq] at hap
+      cases hap
+      exact hiff.mpr this
+    | _ => simp [Abs.copyPair] at hap
+  · intro h a ha
+    cases a with
+    | copy c1 r1 c2 r2 =>
+      obtain ⟨q, hq, hiff⟩ := copyPair_copy asg c1 r1 c2 r2
+      exact hiff.mp (h q (List.mem_filterMap.mpr ⟨_, ha, hq⟩))
+    | _ => trivial
+
+/-- Two call sequences with the same set of copy pairs are satisfied by the same assignments. -/
+theorem copy_set_determines_permutation_constraint (asg : ACell → Nat) (cs cs' : List Abs)
+    (h : ∀ p, p ∈ copyPairs cs ↔ p ∈ copyPairs cs') :
+    CopiesHold asg cs ↔ CopiesHold asg cs' := by
+  rw [copies_hold_iff_pairs, copies_hold_iff_pairs]
+  exact ⟨fun H p hp => H p ((h p).mpr hp), fun H p hp => H p ((h p).mp hp)⟩
+
+example : CopiesHold (fun _ => 7) [.copy ⟨0, 1⟩ 2 ⟨1, 0⟩ 3, .adv 0 0 none] ↔
+    CopiesHold (fun _ => 7) [.copy ⟨1, 0⟩ 3 ⟨0, 1⟩ 2, .copy ⟨0, 1⟩ 2 ⟨1, 0⟩ 3] :=
+  copy_set_determines_permutation_constraint _ _ _ (by
+    intro p
+    have e1 : copyPairs [Abs.copy ⟨0, 1⟩ 2 ⟨1, 0⟩ 3, .adv 0 0 none] = [((⟨0, 1⟩, 2), (⟨1, 0⟩, 3))] := by decide
+    have e2 : copyPairs [Abs.copy ⟨1, 0⟩ 3 ⟨0, 1⟩ 2, .copy ⟨0, 1⟩ 2 ⟨1, 0⟩ 3]
+        = [((⟨0, 1⟩, 2), (⟨1, 0⟩, 3)), ((⟨0, 1⟩, 2), (⟨1, 0⟩, 3))] := by decide
+    rw [e1, e2]
+    simp)
+
+/-- **The copy pairs are part of the keygen view and ignore advice values**: syntheses equal up
+to advice values have the same copy pairs, and keygen sees all of them. -/
+theorem copy_pairs_ignore_advice_values (cfg : Cfg) (items items' : List Item)
+    (h : items.map Item.erase = items'.map Item.erase) :
+    copyPairs (calls cfg items) = copyPairs (calls cfg items') ∧
+    copyPairs (keygenView (calls cfg items)) = copyPairs (calls cfg items) := by
+  refine ⟨?_, copyPairs_keygenView _⟩
+  rw [← copyPairs_erase (calls cfg items), ← copyPairs_erase (calls cfg items'),
+    layout_structure_ignores_advice_values cfg items items' h]
+
+/-! ## The reviewed list of value → structure channels (generated on every run) -/
+
+/-- **Every place of the current sources where a `Value` escapes into Rust control flow or data
+is in the reviewed allow-list** (`translators/c09_value_channels.py` scans circuits/, zk_stdlib/,
+zkir/, aggregator/ and proofs/ on every run; `found` are the sites found now, `allowed` the
+reviewed ones). A new `.map(|v| side effect)`, `error_if_known_and`, `map_with_result`,
+`assert_if_known`, discarded `.map(..);`, effectful `assign_advice` closure or use of the
+crate-private `Value::into_option`/`assign` - or ANY edit of a reviewed one - breaks this. -/
+theorem value_channels_all_reviewed :
+    Gen.found.all (fun s => Gen.allowed.contains s.2.2.2) = true := by decide
+
+/-- **The channels that pick a Rust index / cell from a witness value are exactly the two the
+harness steers** (`k_out_of_n_points` by the operation circuits `K1KofN(n,k)`, `multi_select`
+by `K1MsmBits(bits,n)` / `K1Msm(n)`, with witnesses selecting the first, the last and other
+entries): a newly allow-listed index channel must come with its operation circuit. -/
+theorem index_channels_are_exercised :
+    Gen.indexChannelFns = ["k_out_of_n_points", "multi_select"] := by decide
 
 end MidnightZK.C09
